@@ -115,6 +115,12 @@ def gen_cases(ctx, scale=1.0, modes=('generate', 'verify')):
                     if sizes[i] > 0:
                         # (not down to 0 bytes: generate() refuses a tree without any content before it starts)
                         c['disk'][i] = rng.choice([sizes[i] + 1] + ([sizes[i] - 1] if sizes[i] > 1 else []))
+        # the damage happens DURING the run: the damaged files after the first one are intact when the run starts and get
+        # their state when the reader makes its first read() call (inside file 0).  A file is looked at when the reader
+        # arrives at it, so the run must go exactly as if the damage had been there from the start.
+        damaged = [i for i in range(1, len(sizes)) if c['disk'][i] != 'ok' or any(f == i for f, _ in c['flips'])]
+        if damaged and c['disk'][0] == 'ok' and not c.get('patches') and rng.random() < 0.4:
+            c['late'] = {'files': damaged, 'at_read': 1}
         cases.append(c)
     return cases
 
@@ -243,7 +249,7 @@ def evaluate(ctx, drv, cases, prop='C03', optimized=False):
     for i, ((c, obs), rep) in enumerate(zip(flat, replies)):
         case = {k: c[k] for k in ('mode', 'L', 'sizes', 'paths', 'cseed', 'threads', 'disk', 'flips', 'cb',
                                   'interval', 'strategy', 'max_steps') if k in c}
-        for k in ('refuse', 'read_fault', 'read_fault_item', 'patches'):
+        for k in ('refuse', 'read_fault', 'read_fault_item', 'patches', 'late'):
             if c.get(k) is not None:
                 case[k] = c[k]
         ntimeouts = sum(1 for e in obs['trace'] if e[2] == 'timeout')
